@@ -26,7 +26,12 @@ RULE = ('histories: typed random walk (8-14 steps after set-up) over the public 
         'step and modifies result and operand in place on the real objects. Each history runs under both kernel configurations (fresh compiled '
         'build, TENPY_NO_CYTHON=1) and through the Lean heap model with the kernel flag. Plus MPS/MPO scenarios. '
         'A history is non-trivial when it contains an in-place step, a shallow copy or view, and >= 3 live tensors; '
-        'distinct by content hash.')
+        'distinct by content hash. MPS/MPO level (oracle only): MPOs from a model (virtual legs unsorted), from_grids and '
+        'MPO(...) with caller-owned IdL/IdR/W lists, MPOGraph; a second object derived by dagger / copy / + / make_U_I / '
+        'make_U_II / extract_segment / plus_identity / the constructor, then sort_legcharges, group_sites, '
+        'enlarge_mps_unit_cell, set_W, edits of IdL on the derived object while every other live MPO (IdL, IdR, chi, W '
+        'tensors, dense operator selected by IdL/IdR) and the caller-owned arguments are watched; MPS: constructor with '
+        'caller-owned Bs/SVs/form lists, psi.copy() + in-place methods, from_full, enlarge_mps_unit_cell, get_B(copy=...).')
 TRUSTED = ['Lean 4.33 kernel; axioms of every C03_* theorem ⊆ {propext, Classical.choice, Quot.sound}',
            'hand-written heap model lean/TenpyModel/C03/{Heap,Ops,Calls}.lean, tied to tenpy/linalg/np_conserved.py, '
            'charges.py and _npc_helper.pyx by this correspondence run: the sharing relation (which list / array / buffer '
@@ -54,6 +59,8 @@ def gen_case(rng, idx):
 
 
 def gen_mps_case(rng, idx):
+    if idx % 2:
+        return dict(kind='mpo', seed=rng.randrange(1 << 30), nderive=6)
     return dict(kind='mps', seed=rng.randrange(1 << 30), L=rng.choice([2, 3, 4]), ntrafo=5)
 
 
@@ -181,7 +188,7 @@ def evaluate(ctx, cases, use_model=True, configs=('cy', 'py')):
         ref = runs[configs[0]]['results'][i]
         if 'died' in ref or 'crash' in ref:
             ref = runs[configs[-1]]['results'][i]
-        res.note_case(case, nontrivial(ref) or case.get('kind') == 'mps')
+        res.note_case(case, nontrivial(ref) or case.get('kind') in ('mps', 'mpo'))
         res.count('kind=' + case.get('kind', 'hist'))
         for o in ref.get('ops', []):
             res.count('op=' + o)
@@ -286,9 +293,9 @@ def cases_for(ctx, tag, n_hist, n_mps):
 def run(ctx):
     res = core.Result()
     if ctx.quick:
-        cases = load_corpus() + cases_for(ctx, 'main', 1500, 16)
+        cases = load_corpus() + cases_for(ctx, 'main', 1500, 48)
     else:
-        cases = load_corpus() + cases_for(ctx, 'main', 16000, 200)
+        cases = load_corpus() + cases_for(ctx, 'main', 16000, 400)
     res.merge(evaluate(ctx, cases))
     ops = {k[3:]: v for k, v in res.hist.items() if k.startswith('op=')}
     res.extra['operations_exercised'] = len(ops)
@@ -299,7 +306,7 @@ def run(ctx):
 
 
 def search(ctx, reasons):
-    cases = load_corpus() + cases_for(ctx, 'search', 600, 16)
+    cases = load_corpus() + cases_for(ctx, 'search', 600, 32)
     return evaluate(ctx, cases, use_model=False)
 
 
